@@ -101,3 +101,51 @@ def validate(ctx, traces, focus="all", progress=False):
     for o in outs:
         acc |= o
     return acc | {t["id"] for t in traces if not t["events"]}
+
+
+# --------------------------------------------------------------------------
+# The scenarios of the repository's own tests/backends/test_local.py, transcribed event for event (max_cores=1).
+# They are driven and validated like every generated behaviour, so the specification is also bound to the
+# executions the maintainers wrote down; `expect` is the final state each test asserts and is compared with the
+# drained observation as an independent oracle (a specification that accepted something else would be too weak).
+def _enq(deps=(), limit=0):
+    return {"e": "Enqueue", "deps": list(deps), "limit": limit, "attrs": [], "nopair": True}
+
+
+def _exit(t, rc=0):
+    return {"e": "Exit", "t": t, "rc": rc}
+
+
+PINNED = [
+    ("test_successful_task_without_deps", [_enq(), _exit(0)], ["COMPLETED"]),
+    ("test_successful_task_with_dependent", [_enq(), _enq([0]), _exit(0), _exit(1)], ["COMPLETED", "COMPLETED"]),
+    ("test_task_with_dependent_submitted_later", [_enq(), _exit(0), _enq([0]), _exit(1)], ["COMPLETED", "COMPLETED"]),
+    ("test_failing_task_without_deps", [_enq(), _exit(0, 1)], ["FAILED"]),
+    ("test_failed_task_with_dependents_1", [_enq(), _enq([0]), _enq([1]), _exit(0, 1), {"e": "Cancel", "t": 0}], ["FAILED"] * 3),
+    ("test_failed_task_with_dependents_2", [_enq(), _enq([0]), _enq([1]), _exit(0), _exit(1, 1), {"e": "Cancel", "t": 0}],
+     ["COMPLETED", "FAILED", "FAILED"]),
+    ("test_task_without_deps_times_out", [_enq(limit=1), {"e": "Tick"}], ["KILLED"]),
+    ("test_task_without_deps_completes_within_timelimit", [_enq(limit=1), _exit(0)], ["COMPLETED"]),
+    ("test_cancelled_task_without_deps", [_enq(), {"e": "Cancel", "t": 0}], ["CANCELLED"]),
+    ("test_cancelled_task_with_dependents", [_enq(), _enq([0]), _enq([1]), {"e": "Cancel", "t": 0}], ["CANCELLED"] * 3),
+    ("test_task_writes_log_file", [_enq(), _exit(0)], ["COMPLETED"]),
+]
+
+
+def pinned():
+    return [{"cores": c, "ev": [dict(e) for e in ev], "pinned": name, "expect": exp}
+            for c in (1, 2) for name, ev, exp in PINNED]
+
+
+def pinned_mismatch(scn, trace):
+    """None, or what differs between the final states the repository's test asserts and the drained observation."""
+    if not trace["events"]:
+        return "no event was applicable"
+    st = trace["events"][-1]["obs"]["states"]
+    got = [st.get(str(k)) for k in range(len(scn["expect"]))]
+    if got != scn["expect"]:
+        return "final states %s, the repository's test asserts %s" % (got, scn["expect"])
+    ran = [str(k) for k, v in enumerate(scn["expect"]) if v == "COMPLETED"]
+    if any(trace["logs"].get(k) != "ok" for k in ran):
+        return "log files %s" % trace["logs"]
+    return None
